@@ -38,6 +38,10 @@ RogueKinds == {"foreign", "staleNonce", "noNonce", "wrongEku", "selfSigned", "fo
 DoRogue(st, o) == IF st.cert[o.k] \notin {"fresh", "stale"} THEN Out("skip", st) ELSE Out("error", st)
 \* the server rotates its roots once the node's second chain has become valid (real time): the node keeps one recognised chain
 DoRotateWait(st) == Out("ok", st)
+\* the operator is late: the current root expires (real time) while the next root is valid and no rotation has run;
+\* the server serves from the next root; nodes keep one recognised, valid chain.  (Only honest dials and
+\* enrolments are replayed after this step: the adversarial clients' chain "b0" names the expired root.)
+DoExpireWait(st) == Out("ok", st)
 
 \* node credential rotation end to end (rotation.RotateNodeCredentials authenticated by the current shared key):
 \* the new key gets a record, the old record stays until the application removes it
@@ -118,6 +122,7 @@ Apply(st, o) ==
     [] o.op = "AuthorizePending" -> DoAuthorizePending(st, o)
     [] o.op = "Rogue" -> DoRogue(st, o)
     [] o.op = "RotateWait" -> DoRotateWait(st)
+    [] o.op = "ExpireWait" -> DoExpireWait(st)
     [] o.op = "RotateNode" -> DoRotateNode(st, o)
     [] o.op = "RemovePrev" -> DoRemovePrev(st, o)
     [] o.op = "DialPrev" -> DoDialPrev(st, o)
